@@ -138,11 +138,15 @@ pub struct SrvCfg {
 	pub connect_points: bool,
 	/// SRV-TCP: `Server::builder().build("127.0.0.1:0")` + `start()`, peers over loopback sockets
 	pub tcp: bool,
+	/// max_response_body_size (0 = the default) ...
+	pub max_resp: u32,
+	/// ... and subscription ids that are strings at least this wide (0 = small numeric ids)
+	pub wide_ids: usize,
 }
 
 impl Default for SrvCfg {
 	fn default() -> Self {
-		SrvCfg { conns: vec![], scripts: vec![], stop: false, stop_twice: false, drop_handles: false, max_subs: 16, max_conns: 16, buffer: 16, slow_steps: 1, connect_points: false, tcp: false }
+		SrvCfg { conns: vec![], scripts: vec![], stop: false, stop_twice: false, drop_handles: false, max_subs: 16, max_conns: 16, buffer: 16, slow_steps: 1, connect_points: false, tcp: false, max_resp: 0, wide_ids: 0 }
 	}
 }
 
@@ -186,6 +190,15 @@ fn methods(ctx: Ctx) -> Methods {
 		let sid = serde_json::to_string(&pending.subscription_id()).unwrap();
 		let tag = format!("h:{conn}:{sid}");
 		sched::log(format!("{tag}:start"));
+		sched::log(format!("{tag}:script:{script_idx}"));
+		// the handler future ends by returning, by being dropped (the library cancels it when accept() was refused) or by unwinding
+		struct Gone(String);
+		impl Drop for Gone {
+			fn drop(&mut self) {
+				sched::log(format!("{}:gone", self.0));
+			}
+		}
+		let _gone = Gone(tag.clone());
 		let mut pending = Some(pending);
 		let mut sinks: Vec<Option<SubscriptionSink>> = Vec::new();
 		let mut n = 0u64;
@@ -295,12 +308,15 @@ fn methods(ctx: Ctx) -> Methods {
 }
 
 fn server_cfg(c: &SrvCfg) -> ServerConfig {
-	ServerConfig::builder()
-		.max_subscriptions_per_connection(c.max_subs)
-		.max_connections(c.max_conns)
-		.set_message_buffer_capacity(c.buffer)
-		.set_id_provider(crate::srv::CounterIds(std::sync::atomic::AtomicU64::new(1)))
-		.build()
+	let mut b = ServerConfig::builder().max_subscriptions_per_connection(c.max_subs).max_connections(c.max_conns).set_message_buffer_capacity(c.buffer);
+	if c.max_resp > 0 {
+		b = b.max_response_body_size(c.max_resp);
+	}
+	if c.wide_ids > 0 {
+		b.set_id_provider(crate::srv::WideCounterIds(c.wide_ids, std::sync::atomic::AtomicU64::new(1))).build()
+	} else {
+		b.set_id_provider(crate::srv::CounterIds(std::sync::atomic::AtomicU64::new(1))).build()
+	}
 }
 
 /// SRV-TCP assembly: the real `Server` (accept loop, process_connection) over loopback sockets.
